@@ -482,7 +482,8 @@ def main(tier, replay=None):
     huge = ['1000000000', '999999999999', '10^30', '-1000000000', '2^62', '2000000000.0', '4000000000/2', '(0-10^30)/1', '"1000000000"']
     for name in names:
         for h in (huge if not quick else [huge[0], huge[3], huge[(len(name)) % 4 + 1], huge[5 + len(name) % 4]]):
-            texts += ['%s(%s)' % (name, h), '%s(2,%s)' % (name, h), '%s(%s,2)' % (name, h), '%s(2,3,%s)' % (name, h)]
+            texts += ['%s(%s)' % (name, h), '%s(2,%s)' % (name, h), '%s(%s,2)' % (name, h), '%s(2,3,%s)' % (name, h),
+                      '%s(2,%s,3)' % (name, h), '%s(%s,2,3)' % (name, h), '%s(1,2,3,%s)' % (name, h)]
     # criteria and patterns with every kind of dangling escape, operator and wildcard, for the functions that interpret them
     crits = ['a*~', '~', '*~', '?~', 'a~', '~~', '~*', '~?', '>', '<', '<>', '>=', '=', '*', '?', '**', '>~', '>*', '>1e', '>1e5', '<=-', 'a[b', 'a]',
              '[', '[!', '[a-', 'a\\\\', '{', '(', ')', '^$', '.*', '%', '>=<=', '=>1', '>>1', ' >1', '> 1', '"', "'"]
